@@ -67,7 +67,7 @@ func genC02(seed uint64, tier string) *plan.Plan {
 			}
 			if r.IntN(8) == 0 {
 				// the Set as it stands is sent once more (after another PrepareSet with the same arguments, or not)
-				pl.Ops = append(pl.Ops, plan.Op{K: "resend", S: []string{"", "prep"}[r.IntN(2)]})
+				pl.Ops = append(pl.Ops, plan.Op{K: "resend", S: []string{"", "prep", "grow"}[r.IntN(3)], C: int64(r.Uint64() >> 1)})
 			}
 			if r.IntN(12) == 0 {
 				pl.Ops = append(pl.Ops, plan.Op{K: "tmplagain", A: int64(r.IntN(nT))})
